@@ -95,8 +95,8 @@ fn target_of(len: usize) -> Packet {
     p
 }
 
-/// Byte-level contract: every rejected datagram of at most 48 bytes x all peers x any addresses x
-/// any target size <= 160.
+/// Byte-level contract: every rejected datagram of at most 48 bytes x all peers x any IPv4
+/// local/destination address and ISD-AS x any target size <= 160.
 #[kani::proof]
 #[kani::unwind(60)]
 fn c08_reply_bytes_n48() {
@@ -119,8 +119,10 @@ fn c08_reply_bytes_n48() {
         PacketPolicyError::InvalidSourceAddress(..) => 1,
         PacketPolicyError::InvalidPathType(..) => 2,
     };
-    let local = any_host();
-    let dst_host = any_host();
+    // address families fixed (IPv4 local address, IPv4 peer as destination: header offsets stay
+    // concrete), address bytes and ISD-AS symbolic
+    let local = ScionHostAddr::V4(Ipv4Addr::from(kani::any::<[u8; 4]>()));
+    let dst_host = ScionHostAddr::V4(Ipv4Addr::from(kani::any::<[u8; 4]>()));
     let dst_ia: u64 = kani::any();
     let dst = ScionAddr::new(IsdAsn::from_u64(dst_ia), dst_host);
     let tlen: usize = kani::any();
